@@ -60,8 +60,10 @@ class ListBuilder(Periodic):
                                 local_set.add(bytes.fromhex(pubkey))
                                 pubkey_count += 1
                     event_count += 1
-                global_set.clear()
+                # validators read these sets from other threads: never pass through
+                # an empty list, which is_pubkey_allowed takes for "not enforced"
                 global_set.update(local_set)
+                global_set.intersection_update(local_set)
                 self.log.info(
                     "Loaded %s list with %d pubkeys from %d events",
                     list_kind,
